@@ -27,6 +27,7 @@ var shimTargets = map[string]string{
 	"ioutil.WriteFile":    "vfsWriteFile",
 	"io.Copy":             "vfsCopy",
 	"gzip.NewWriterLevel": "vfsGzipWriterLevel",
+	"json.NewEncoder":     "vfsJSONEncoder",
 }
 
 var shimKeepAlive = map[string]string{
@@ -34,6 +35,7 @@ var shimKeepAlive = map[string]string{
 	"io/ioutil":     "var _ = ioutil.Discard",
 	"io":            "var _ io.Reader",
 	"compress/gzip": "var _ = gzip.BestSpeed",
+	"encoding/json": "var _ = json.Marshal",
 }
 
 // shimOverlay rewrites every non-test source file of repoDir into dir
